@@ -597,7 +597,7 @@ def lean_part(ck):
             # line of `theorem surface_no_plain`
             gl = open(shared_access.OUT).read().splitlines()
             want = next((i + 1 for i, l in enumerate(gl) if l.startswith("theorem surface_no_plain")), -1)
-            errs = [int(x) for x in re.findall(r"SharedAccess\.lean:(\d+):\d+: error", out)]
+            errs = [int(x) for x in re.findall(r"error: \S*SharedAccess\.lean:(\d+):\d+", out)]
             if not errs or any(e != want for e in errs):
                 ck.failed_obligations.append((GEN_THEOREMS[0], out[-400:]))
         ck.log("lake build %s: %s" % (GEN_TARGET, "ok" if gen_ok else "FAILED (surface_no_plain)"))
